@@ -160,7 +160,7 @@ PROPS = {
         assumptions=["H-ind: multi-view history induction NOT mechanised"],
     ),
     "C03": dict(
-        units=["replica", "conv"],
+        units=["replica", "conv", "blockstore"],
         kani=["phase"],
         level="proof",
         level_text="Deductive proof (Verus) over the real text of on_proposal, on_new_view, on_commit, on_timeout, start_new_view, start_timeout, "
@@ -173,7 +173,9 @@ PROPS = {
                    "EVERY outbound send requires it to equal the current snapshot, and backup_state is proved to hand exactly that snapshot "
                    "to set_state. Restart: StateMachine::start restores exactly the stored snapshot (incl. phase) when the epoch matches; the stored state's "
                    "conversion to and from its protobuf message (ReplicaState, ChonkyV2State, Phase; unit conv) is lossless, so what was persisted "
-                   "is what is restored. Thorough tier: Kani round-trip harnesses for Phase / View / ReplicaCommit on the real crate.",
+                   "is what is restored; backup_state returns Ok only after the write succeeded (ghost flag at every Ok), and EngineManager::set_state / "
+                   "get_state (unit blockstore) pass the state to / from the execution layer unchanged and report Ok only if it accepted exactly "
+                   "that state. Thorough tier: Kani round-trip harnesses for Phase / View / ReplicaCommit on the real crate.",
         level_note="Not decided: durability/atomicity of EngineInterface::set_state itself (A5) and a crash INSIDE it; the wire encoding of the "
                    "stored state (C09). One task per replica (A4). The proposal-cache statements are abstracted (not voting state); the vote caches are verified (invariants commit_inv/timeout_inv).",
         technique="contract-based deductive verification (Verus on extracted real handlers; ghost persist-before-send monitor at every send site)",
